@@ -29,7 +29,9 @@ def parse(line):
 
 
 EV_KINDS = {
-    "worker": re.compile(r"^[SXRE]"),
+    # S started, X saw CancelledError (and ended by it / returned), R returned, E raised; Y caught a CancelledError and went
+    # on awaiting, N its awaited future completed and it went on to its next await (both: still running)
+    "worker": re.compile(r"^[SXYNRE]"),
     "cb": re.compile(r"^(cc|cd|cr|ck|ec|ed|er|ek)"),
     "pull": re.compile(r"^P"),
     "hook": re.compile(r"^h\["),
